@@ -181,7 +181,20 @@ Fixpoint no_pipe (t : ty) : bool :=
   | _ => true
   end.
 
-(* class names that do not hide a name of `typing` (a user class called List would) *)
+Definition ann_names (ann : annotations) : list string := flat_map (fun kv => cls_names (snd kv)) ann.
+
+(* a well-formed signature: a dict has every key once, the annotations are typing objects *)
+Definition sig_ok (ann : annotations) : bool :=
+  nodupb (map fst ann) && forallb (fun kv => ann_ok (snd kv)) ann.
+
+(* the scope contains the classes the annotations mention *)
+Definition scope_ok (scope : list string) (ann : annotations) : bool :=
+  forallb (fun n => mem n scope) (ann_names ann).
+
+(* a class name that does not hide a non-class name of `typing` (a user class called List / Any / Optional would).
+   `no_hiding scope`: no class visible to the function has such a name.  Only the direction "accepted => consistent"
+   needs it: pedantic evaluates a documented type with eval(type_, globals(), context), where the context holds the classes
+   collected so far - a class called List that is mentioned by a LATER annotation does not shadow typing.List yet. *)
 Definition name_ok (n : string) : bool :=
   match globals n with
   | None => true
@@ -189,14 +202,7 @@ Definition name_ok (n : string) : bool :=
   | Some _ => false
   end.
 
-Definition ann_names (ann : annotations) : list string := flat_map (fun kv => cls_names (snd kv)) ann.
-
-Definition sig_ok (ann : annotations) : bool :=
-  nodupb (map fst ann) && forallb (fun kv => ann_ok (snd kv)) ann && forallb name_ok (ann_names ann).
-
-(* the scope contains the classes the annotations mention and hides nothing either *)
-Definition scope_ok (scope : list string) (ann : annotations) : bool :=
-  forallb (fun n => mem n scope) (ann_names ann) && forallb name_ok scope.
+Definition no_hiding (scope : list string) : bool := forallb name_ok scope.
 
 Definition doc_types (doc : docT) : list dtype :=
   flat_map (fun p => match snd p with Some d => [d] | None => [] end) (d_params doc)
